@@ -101,7 +101,7 @@ impl FromBytes for c12::Case {
             }
             ops.push(tree_op(src));
         }
-        c12::Case { k, ops }
+        c12::Case { k, ops, bulk: 0 }
     }
 }
 
@@ -120,7 +120,7 @@ impl FromBytes for c13::Case {
             }
             build.push(tree_op(src));
         }
-        c13::Case { k, build, start, kind, script, chain: 0 }
+        c13::Case { k, build, start, kind, script, chain: 0, bulk: 0 }
     }
 }
 
